@@ -33,6 +33,10 @@ CLAIMED = {
             "Seeded exploration, metamorphic oracle: the same generated request sequence is delivered on a baseline connection and on 1..3 further connections under tape-chosen TCP deliveries (cuts anywhere in head and body, coalescing, pipelining, delays from 0 to seconds, short reads, different task schedules); every delivery must produce the baseline's responses and terminate. One listed known finding (pipelining, KF-C06-2) is guarded in the main pass and re-entered deliberately in a hazard pass where any unlisted signature is still a violation.",
             "Trusts the facade tokio's read semantics (arbitrary 1..n byte returns are legal for TCP), the response parser and the C02 reference model for the baseline.",
             "metamorphic comparison of deliveries of one byte stream under injected segmentation/short-read/delay faults"),
+    "C17": ("DESIGN.md 5.C17",
+            "Seeded exploration over producer schedules: 1..3 concurrent SSE connections, each driven by a generated producer script (sends of arbitrary Unicode text incl. LF/CR/CRLF/field look-alikes/NUL/BOM, bursts before a yield, self-waking yields, timer sleeps, completion with empty or non-empty queue) through DataStream::new (QueueStream), DataStream::from(custom Stream) and Response::with_stream, read over sockets with tape-chosen windows, read sizes and pauses (back-pressure between chunks) and short writes; an independent chunked decoder and WHATWG event-stream parser must yield exactly the messages in order with no foreign field, the stream must terminate, and a follow-up request on the same connection must be answered.",
+            "Trusts the independent chunked decoder and event-stream parser (DESIGN.md A.7) and the facade's timer/yield semantics.",
+            "producer-schedule and back-pressure search; independent event-stream parser as oracle"),
     "C18": ("DESIGN.md 5.C18",
             "Seeded exploration of interleavings: the real Ohkami::howl runs with 0..6 clients in tape-chosen stages (connecting, mid-request, in a handler sleeping up to 20 s, idle keep-alive, half-sent request); a simulated SIGINT becomes due at a tape-chosen instant and the REAL closure ohkami gave to ctrlc::set_handler runs on a second OS thread in strict hand-off with the executor, pausing at the three scheduling points hook K2 adds inside it, while the executor decides at the three points inside UntilInterrupt::poll (first poll and later polls) how far the handler advances — every order of the six steps is reachable. Safety: howl completes only after every spawned session task finished, accepted connections are served, late connects are refused. Bounded liveness: a quiescent world with the handler finished and howl still pending is a violation (lost wake-up).",
             "All atomics of the protocol are SeqCst, so the six explicit scheduling points give every observable interleaving; trusts the hand-off thread (exactly one of the two threads is ever runnable) and the executor's spinner rule for the busy-waiting WaitGroup.",
